@@ -24,6 +24,23 @@ CLAIMED = {
     note='Trusted: clang front end, vf/irparse.py / irsym.py / irx.py (interpreter, libc model), z3, the oracles written from vnacal_new(3) and vnacal_layout.h.  Linear solvers are hooked on the calibrate side (C19 covers LU; QR not covered).  '
          'Outside: TRL / unknown parameters, measurement-error weighting, several frequencies, interpolation in apply, > 3 ports, measure-zero sets where free values coincide (listed per path).',
     design='DESIGN.md section 3 / C01', cmd='python3-vt ./check C01', engine='irx+z3'),
+ 'C06': dict(
+    technique='whole-flow symbolic execution of the real vnadata_cksave / vnadata_save / vnadata_load / vnadata_convert (clang-14 IR -> vf/irx.py over an in-memory file system; symbolic doubles cross the file as numeric placeholders mapped back by value) with z3 deciding cell-by-cell equality against an independent reader of the formats and against the loaded object; counterexamples replayed as generated C programs on a clang ASan/UBSan build',
+    text='Bounded proof (exact algebra, z3) on the real saver and loader: for S/Z/Y objects with 1..3 ports (4 in thorough), H/G/T/U/A/B with 2 ports and input-impedance vectors with 1..3 ports, file types Touchstone 1 (.sNp), Touchstone 2 (.ts) and NPD, '
+         'own-type and converted formats in rectangular coordinates (incl. multi-parameter NPD), impedances default / one symbolic resistance / symbolic per-port / symbolic complex / symbolic per-frequency, default and maximum precision, 2 frequencies, '
+         'and EVERY data cell a free complex symbol: (agree) vnadata_cksave and vnadata_save return the same value, refused combinations write nothing and set EINVAL; (written) the bytes the saver writes, read by an independent reader written from the format '
+         'documents, denote the type, ports, frequencies, impedances and every cell of the object in the requested form (Touchstone 1 normalisation undone); (loaded) vnadata_load of those bytes gives the same type, dimensions, frequencies, impedances and cells.  '
+         'A printed symbolic number is an exact placeholder: the number of significant digits is outside the claim; Touchstone 1 normalisation of Z/Y/H/G with 2+ ports and conversions from Z/Y run on constant cells and are compared numerically (1e-10).',
+    note='Trusted: clang front end, vf/irx.py incl. its printf / strtod / stdio model, z3, oracle/netfile_reader.py.  Outside: MA / DB and the other NPD coordinate forms, digits, > 2 frequencies, fsave / fload streams, I/O errors.',
+    design='DESIGN.md section 3 / C06', cmd='python3-vt ./check C06', engine='irx+z3'),
+ 'C08': dict(
+    technique='whole-flow symbolic execution of the real vnadata_load (Touchstone 1 / 2 and NPD parsers; clang-14 IR -> vf/irx.py) on generated spellings whose syntax bytes are concrete and whose data numbers are tokens standing for z3 terms; z3 decides that each spelling loads to the ground truth it was generated from; counterexamples replayed natively with numeric instances of the same spelling',
+    text='Bounded proof (z3) on the real parsers: for S-parameter data with 1..3 ports (4 in thorough), 2 frequencies and 50 ohm reference, every data number a free symbol, each of the generated spellings - frequency unit Hz / kHz / MHz / GHz with scaled numbers, '
+         'RI / MA / DB coordinates (polar formulas over uninterpreted cos / sin / exp), Touchstone 2 Full / Upper / Lower of a symmetric matrix, 12_21 / 21_12, letter case of option line and keywords, order of option-line fields, comments, blank lines, tabs, '
+         'line breaks inside records, [Reference] inline or on the next line, Touchstone 2 framing in .sNp files, NPD header-line order (also for the two-port-only types T/U/H/G/A/B and Z/Y), case of the parameter name, NPD comments - is accepted and loads to '
+         'exactly the ground truth it was generated from (type, dimensions, frequencies in Hz, impedances, every cell); spellings of one ground truth are therefore equal to each other.',
+    note='Trusted: clang front end, vf/irx.py (stdio / strtod model, tokens standing for terms), z3, the spelling generators written from the Touchstone 1.1 / 2.0 specifications and vnadata_save(3).  Outside: other impedances, more ports / frequencies, digits, noise blocks.',
+    design='DESIGN.md section 3 / C08', cmd='python3-vt ./check C08', engine='irx+z3'),
  'C17': dict(
     technique='two whole-flow symbolic executions of the real code (clang-14 IR -> vf/irx.py) of two descriptions of the same calibration with shared symbols; z3 decides that both hand the same equations to the solver and store the same error terms; counterexamples replayed as generated C programs (both descriptions calibrated natively, corrected S compared)',
     text='Bounded proof (exact algebra, z3) on the real vnacal_new_add_* .. vnacal_new_solve: for all 8 types x accepted shapes up to 2 ports (3 in thorough; some 3-port in quick), the base description and each re-description of the same '
@@ -139,10 +156,7 @@ CLAIMED = {
 
 NA_REASONS = {
  'C02': 'the claim is convergence of a Levenberg-Marquardt / TRL iteration in IEEE arithmetic to the true values within tolerances: no installed solver decides convergence of a floating-point iteration; see DESIGN.md section 6',
- 'C06': 'save/load equivalence is a statement about printf("%g") / strtod digits and about stdio-driven writers and parsers of several thousand lines; see DESIGN.md section 6',
- 'C08': 'the two-spelling differential on the Touchstone loader gives no CBMC verdict within 900 s even for one differing byte; see DESIGN.md section 6',
  'C14': 'most of the property is behaviour of the emitter and parser of libyaml, a binary without source in this image (not encodable); see DESIGN.md section 6',
- 'C17': 'not built',
 }
 NOT_APPLICABLE = {}
 for i in range(1, 21):
